@@ -60,6 +60,14 @@ func (s *store) GetTimestampOracle(ctx context.Context) (timestamp uint64, err e
 
 // Get implements storage.KvStorage interface
 func (s *store) Get(ctx context.Context, key []byte) (val []byte, err error) {
+	// the skip list is not safe for concurrent use: readers must hold the store mutex like writers and iterators do
+	s.mu.Lock()
+	defer s.mu.Unlock()
+	return s.get(key)
+}
+
+// get reads a key; the caller must hold the store mutex
+func (s *store) get(key []byte) (val []byte, err error) {
 	elem := s.skl.Get(key)
 	if elem == nil {
 		return nil, storage.ErrKeyNotFound
